@@ -20,8 +20,8 @@ CONSTANTS MaxDefs, MaxLabels, MaxProcs,
           Rich      \* TRUE: all value classes; FALSE: reduced grid
 
 Types == IF Rich THEN {"COUNTER", "GAUGE", "HISTOGRAM", "SUMMARY"} ELSE {"COUNTER", "HISTOGRAM"}
-ExprKinds == IF Rich THEN {"absent", "numeric", "numeric_text", "bool", "non_numeric", "raises"}
-             ELSE {"absent", "numeric", "raises"}
+ExprKinds == IF Rich THEN {"absent", "numeric", "numeric_text", "bool", "non_numeric", "raises", "zero"}
+             ELSE {"absent", "numeric", "raises", "zero"}      \* zero: the expression evaluates to exactly 0
 LabelKinds == IF Rich THEN {"static_str", "static_int", "static_bool", "expr_ok", "expr_raises"}
               ELSE {"static_str", "expr_ok", "expr_raises"}
 Opt == {"absent", "given"}
@@ -49,7 +49,7 @@ AddLabel(kd) ==
 (* what one processor receives for one definition *)
 Op(d) == CASE d.type = "COUNTER" -> "counter" [] d.type = "GAUGE" -> "gauge"
            [] d.type = "HISTOGRAM" -> "histogram" [] d.type = "SUMMARY" -> "summary"
-ValueClass(d) == IF d.expr \in {"numeric", "numeric_text", "bool"} THEN d.expr ELSE "one"
+ValueClass(d) == IF d.expr \in {"numeric", "numeric_text", "bool", "zero"} THEN d.expr ELSE "one"
 LabelClass(kd) == IF kd = "expr_raises" THEN "error_text" ELSE kd
 CallFor(i) == LET d == defs[i] IN
     [def |-> i, op |-> Op(d), ns |-> IF d.ns = "absent" THEN "deep" ELSE "given", help |-> d.help, unit |-> d.unit,
